@@ -19,6 +19,7 @@ import (
 	"bytes"
 	"crypto/md5"
 	"encoding/hex"
+	"encoding/json"
 	"errors"
 	"fmt"
 	"io"
@@ -127,6 +128,39 @@ func verifC11Response(req *http.Request, o verifC11Out) *http.Response {
 		Body:       body,
 		Request:    req,
 	}
+}
+
+// A keep_services list as the API server's "accessible" call returns it. It reaches the client
+// through LoadKeepServicesFromJSON, i.e. the same decoding (field names of the API: uuid,
+// service_host, service_port, service_ssl_flag, service_type, read_only) and the same
+// loadKeepServers as service discovery; nothing is set with SetServiceRoots.
+type verifC11Item struct {
+	uuid, host string
+	port       int
+	ssl        bool
+	typ        string
+	readOnly   bool
+}
+
+type verifC11SvcList []verifC11Item
+
+func (l verifC11SvcList) load(kc *KeepClient) error {
+	items := []map[string]interface{}{}
+	for _, it := range l {
+		items = append(items, map[string]interface{}{
+			"uuid":             it.uuid,
+			"service_host":     it.host,
+			"service_port":     it.port,
+			"service_ssl_flag": it.ssl,
+			"service_type":     it.typ,
+			"read_only":        it.readOnly,
+		})
+	}
+	js, err := json.Marshal(map[string]interface{}{"kind": "arvados#keepServiceList", "items": items})
+	if err != nil {
+		return err
+	}
+	return kc.LoadKeepServicesFromJSON(string(js))
 }
 
 type verifC11Svc struct {
@@ -424,7 +458,7 @@ func verifC11PutOnce(f []string, limit time.Duration) string {
 		events:   make(chan int, 4096),
 		reqid:    fmt.Sprintf("req-verif-%d", atomic.AddInt64(&verifC11Seq, 1)),
 	}
-	var list svcList
+	var list verifC11SvcList
 	if f[6] != "-" {
 		for i, s := range strings.Split(f[6], ";") {
 			p := strings.Split(s, ":")
@@ -448,7 +482,7 @@ func verifC11PutOnce(f []string, limit time.Duration) string {
 			if sv.disk {
 				typ = "disk"
 			}
-			list.Items = append(list.Items, keepService{Uuid: sv.uuid, Hostname: host, Port: 25107, SvcType: typ, ReadOnly: !sv.writable})
+			list = append(list, verifC11Item{sv.uuid, host, 25107, false, typ, !sv.writable})
 		}
 	}
 	ctl.counts = make([]int, len(ctl.svcs))
@@ -470,8 +504,7 @@ func verifC11PutOnce(f []string, limit time.Duration) string {
 		HTTPClient:    ctl,
 		RequestID:     ctl.reqid,
 	}
-	kc.disableDiscovery = true
-	if err := kc.loadKeepServers(list); err != nil {
+	if err := list.load(kc); err != nil {
 		return "load-error"
 	}
 
@@ -682,7 +715,7 @@ func verifC11Load(f []string) string {
 	if f[1] != "0" && f[1] != "1" {
 		return "bad-op"
 	}
-	var list svcList
+	var list verifC11SvcList
 	if f[2] != "-" {
 		for _, s := range strings.Split(f[2], ";") {
 			p := strings.Split(s, ",")
@@ -697,13 +730,12 @@ func verifC11Load(f []string) string {
 			if typ == "-" {
 				typ = ""
 			}
-			list.Items = append(list.Items, keepService{Uuid: p[0], Hostname: p[1], Port: port, SSL: p[3] == "1", SvcType: typ, ReadOnly: p[5] == "1"})
+			list = append(list, verifC11Item{p[0], p[1], port, p[3] == "1", typ, p[5] == "1"})
 		}
 	}
 	kc := &KeepClient{Arvados: &arvadosclient.ArvadosClient{ApiToken: "tok"}}
-	kc.disableDiscovery = true
 	kc.foundNonDiskSvc = f[1] == "1"
-	if err := kc.loadKeepServers(list); err != nil {
+	if err := list.load(kc); err != nil {
 		return "load-error"
 	}
 	nd := 0
